@@ -278,7 +278,13 @@ def _random_run(rng, kind, n_ops, malformed):
         if malformed and r < 0.06:
             ops.append(['bad', rng.randrange(N_BAD), t, d])
         elif r > 0.98:
-            ops.append(_copy_op(rng.choice(_COPIES[kind != 'traj']), [t], d))
+            cop = _copy_op(rng.choice(_COPIES[kind != 'traj']), [t], d)
+            # at most one inverse() per run: poses are recognised by VALUE, and the inverse of an inverse can be
+            # bit-identical to the original pose, which would make the recognition of a twice-inverted pose ambiguous
+            # (a harness ambiguity, not a behaviour of the container); a second draw becomes a deep copy
+            if cop == ['inv'] and ['inv'] in ops:
+                cop = ['copy', 'deep']
+            ops.append(cop)
         elif rng.random() < p_edit:
             r = rng.random()
             if r < p_del * 0.6:
